@@ -46,7 +46,12 @@ type LeafCase struct {
 	Seed   int `json:"seed"`            // values are derived from (seed, layer): distinct per layer
 	Bad    int `json:"bad,omitempty"`   // same bits: that layer's value violates the leaf's Verify rule (signed integer leaves with a rule)
 	Alias  int `json:"alias,omitempty"` // bits 1..3: that layer addresses the leaf by its alias name
-	Form   int `json:"form,omitempty"`  // argv form of the flag: -n=v, --n=v, -n v, --n v
+	Form   int `json:"form,omitempty"`  // argv form of the flag: -n=v, --n=v, -n v, --n v (bools: -n=v, --n=v, -n / -n=false, --n / --n=false)
+	// EqDef: 0, or ONE of the file/env/flag bits: that layer carries exactly
+	// the value the defaults struct has for the leaf (the generated default,
+	// or the zero value when the default layer does not set the leaf), so
+	// "explicitly set to the default" must still beat the lower layers.
+	EqDef int `json:"eq_def,omitempty"`
 }
 
 // RewLeaf is one leaf in a later version of the config file.
@@ -271,6 +276,39 @@ func genC18(watch bool) func(t *rapid.T) C18Case {
 				lc.Bad &^= top(*lc)
 			}
 		}
+		// one leaf in five: the highest layer that sets it repeats the
+		// default's value while a lower non-default layer says something else
+		for i := range td.leaves {
+			l := &td.leaves[i]
+			if l.path != pNone || (i == target && plan != 0) {
+				continue
+			}
+			if rapid.IntRange(0, 4).Draw(t, "eqdef") != 4 {
+				continue
+			}
+			lc := &c.Leaves[i]
+			switch rapid.IntRange(0, 5).Draw(t, "eqdef_layer") {
+			case 0, 1, 2: // flag repeats the default; env and/or file differ
+				lc.Layers |= bFlag
+				if lc.Layers&(bEnv|bFile) == 0 {
+					lc.Layers |= []int{bEnv, bFile, bEnv | bFile}[rapid.IntRange(0, 2).Draw(t, "eqdef_lower")]
+				}
+				lc.EqDef = bFlag
+			case 3, 4: // env (the top layer) repeats the default; the file differs
+				lc.Layers &^= bFlag
+				lc.Layers |= bEnv | bFile
+				lc.EqDef = bEnv
+			default: // the file (the top layer) repeats the default
+				lc.Layers &^= bFlag | bEnv
+				lc.Layers |= bFile
+				lc.EqDef = bFile
+			}
+			if l.kind == kSet || l.kind == kSlice || rapid.Bool().Draw(t, "eqdef_has_default") {
+				lc.Layers |= bDefault // (an empty set/slice text is another property's corner)
+			} else {
+				lc.Layers &^= bDefault // the struct default is the zero value
+			}
+		}
 		c.ArgRot = rapid.IntRange(0, 7).Draw(t, "arg_rot")
 
 		if watch && c.FileState == "valid" && !noPath {
@@ -399,6 +437,18 @@ func validateCase(c C18Case, td *typeDef) string {
 	for i, lc := range c.Leaves {
 		if lc.Seed < 1 || lc.Seed > 4000 || lc.Layers < 0 || lc.Layers > 15 {
 			return fmt.Sprintf("leaf %d seed/layers", i)
+		}
+		if lc.EqDef != 0 {
+			l := &td.leaves[i]
+			if lc.EqDef != bFile && lc.EqDef != bEnv && lc.EqDef != bFlag {
+				return fmt.Sprintf("leaf %d eq_def", i)
+			}
+			if l.path != pNone || lc.Layers&lc.EqDef == 0 {
+				return fmt.Sprintf("leaf %d eq_def on a path leaf / absent layer", i)
+			}
+			if (l.kind == kSet || l.kind == kSlice) && lc.Layers&bDefault == 0 {
+				return fmt.Sprintf("leaf %d eq_def with an empty collection", i)
+			}
 		}
 	}
 	if len(c.Rewrites) > 0 && (!c.Watch || c.FileState != "valid") {
@@ -531,7 +581,15 @@ func execCase[T any, TP ez.ConfigWithConfigPath[T]](c C18Case, td *typeDef, bubb
 		case pBase:
 			return value{s: p.baseOf(gen)}
 		}
-		return leafValue(l, c.Leaves[i].Seed, gen, bad)
+		lc := c.Leaves[i]
+		if lc.EqDef != 0 && gen >= gFile && gen <= gFlag && lc.EqDef == 1<<gen {
+			// this layer repeats what the defaults struct holds
+			if lc.Layers&bDefault == 0 {
+				return value{}
+			}
+			return leafValue(l, lc.Seed, gDefault, lc.Bad&bDefault != 0)
+		}
+		return leafValue(l, lc.Seed, gen, bad)
 	}
 
 	// file layer of version r (0 initial, 1.. rewrites): presence, origin, bad, alias
@@ -691,7 +749,18 @@ func execCase[T any, TP ez.ConfigWithConfigPath[T]](c C18Case, td *typeDef, bubb
 		if lc.Alias&bFlag != 0 && l.flagAl != "" {
 			name = l.flagAl
 		}
-		txt := l.text(val(i, gFlag, lc.Bad&bFlag != 0))
+		fv := val(i, gFlag, lc.Bad&bFlag != 0)
+		txt := l.text(fv)
+		if l.kind == kBool && lc.Form&3 >= 2 {
+			// a bool flag takes no separate value argument
+			dash := []string{"-", "--"}[lc.Form&1]
+			if fv.b {
+				flagArgs = append(flagArgs, []string{dash + name})
+			} else {
+				flagArgs = append(flagArgs, []string{dash + name + "=false"})
+			}
+			continue
+		}
 		switch lc.Form & 3 {
 		case 0:
 			flagArgs = append(flagArgs, []string{"-" + name + "=" + txt})
@@ -829,6 +898,21 @@ func execCase[T any, TP ez.ConfigWithConfigPath[T]](c C18Case, td *typeDef, bubb
 		}
 	}
 	labels = append(labels, fmt.Sprintf("max-layers-on-a-leaf=%d", maxLayers))
+	kindNames := map[kind]string{kString: "string", kInt: "int", kInt64: "int", kUint16: "int", kDur: "duration", kFloat: "float", kSet: "set", kSlice: "slice", kBool: "bool"}
+	for i := range td.leaves {
+		lc := c.Leaves[i]
+		if lc.EqDef == 0 {
+			continue
+		}
+		ln := map[int]string{bFile: "file", bEnv: "env", bFlag: "flag"}[lc.EqDef]
+		labels = append(labels, "layer-equals-default:"+ln, "layer-equals-default:"+ln+":"+kindNames[td.leaves[i].kind])
+		if lc.Layers&bDefault == 0 {
+			labels = append(labels, "layer-equals-default:zero-default")
+		}
+		if lc.EqDef == bFlag {
+			labels = append(labels, fmt.Sprintf("layer-equals-default:flag:argv-form=%d", lc.Form&3))
+		}
+	}
 	if aliasUsed {
 		labels = append(labels, "alias-used")
 	}
